@@ -18,6 +18,8 @@ package operations
 //@   ghostset opDeletes := old(opDeletes) + 1
 //@   ensures [counted] opDeletes == old(opDeletes) + 1
 //@   property C05
+//@   at call SignHeader#1 assert [action-records-carry-no-data] arg_hdr.Size == 0
+//@   property C05
 //@   ensures [trailer-on-success] err == nil && hdrWrites > old(hdrWrites) ==> trailers > old(trailers)
 //@   property C09
 //@   at call WriteHeader#1 assert [sealed-before-write] o.pipes.Encryption != "" ==> hdrSealed[arg_hdr]
@@ -52,6 +54,8 @@ package operations
 //@   ghostset opMoves := old(opMoves) + 1
 //@   ensures [counted] opMoves == old(opMoves) + 1
 //@   property C05
+//@   at call SignHeader#1 assert [action-records-carry-no-data] arg_hdr.Size == 0
+//@   property C05
 //@   ensures [trailer-on-success] err == nil && hdrWrites > old(hdrWrites) ==> trailers > old(trailers)
 //@   property C09
 //@   at call WriteHeader#1 assert [sealed-before-write] o.pipes.Encryption != "" ==> hdrSealed[arg_hdr]
@@ -70,6 +74,9 @@ package operations
 //@   ensures [ops-free] !mutexHeld[addr(o.diskOperationLock)]
 
 //@ func (*Operations).Restore
+//@   property C02 also C14
+//@   ghostset opRestores := old(opRestores) + 1
+//@   ensures [counted] opRestores == old(opRestores) + 1
 //@   property C04
 //@   at call Fetch assert [uses-row-position] arg_record == dbhdr.Record && arg_block == dbhdr.Block
 //@   property C11
@@ -82,7 +89,7 @@ package operations
 //@   property C10 also C11
 //@   safety C10
 //@   requires o != nil && opsReady(o) && opsIdle(o)
-//@   modifies *, driveHeld, mutexHeld[addr(o.diskOperationLock)], ghosts(C04), ghosts(C08), ghosts(C09), ghosts(C05), ghosts(C14), ghosts(C07), ghosts(C12)
+//@   modifies *, driveHeld, mutexHeld[addr(o.diskOperationLock)], ghosts(C04), ghosts(C08), ghosts(C09), ghosts(C05), ghosts(C14), ghosts(C07), ghosts(C12), opRestores
 //@   ensures [drive-free] !driveHeld
 //@   ensures [ops-free] !mutexHeld[addr(o.diskOperationLock)]
 
@@ -101,6 +108,7 @@ package operations
 //@   at call AddSuffix#1 assert [suffix-added-with-size-record] has(hdr.PAXRecords, "STFS.UncompressedSize")
 //@   at call Encrypt assert [content-encrypted-for-recipient] arg_encryptionFormat == o.pipes.Encryption && arg_recipient == o.crypto.Recipient
 //@   at call Compress assert [compresses-into-encryptor] arg_dst == encryptor && arg_compressionFormat == o.pipes.Compression
+//@   at call Compress assert [measured-and-written-with-the-same-level] arg_compressionLevel == compressionLevel && arg_isRegular == writer.DriveIsRegular && arg_recordSize == o.pipes.RecordSize
 //@   at call Sign assert [signs-source-content] arg_src == f && arg_signatureFormat == o.pipes.Signature
 //@   at call Flush assert [whole-source-through-pipeline] copied[compressor] == signer || copied[compressor] == f
 //@   property C01
@@ -133,6 +141,7 @@ package operations
 //@   at call AddSuffix#1 assert [suffix-added-with-size-record] has(hdr.PAXRecords, "STFS.UncompressedSize")
 //@   at call Encrypt assert [content-encrypted-for-recipient] arg_encryptionFormat == o.pipes.Encryption && arg_recipient == o.crypto.Recipient
 //@   at call Compress assert [compresses-into-encryptor] arg_dst == encryptor && arg_compressionFormat == o.pipes.Compression
+//@   at call Compress assert [measured-and-written-with-the-same-level] arg_compressionLevel == compressionLevel && arg_isRegular == writer.DriveIsRegular && arg_recordSize == o.pipes.RecordSize
 //@   at call Sign assert [signs-source-content] arg_src == f && arg_signatureFormat == o.pipes.Signature
 //@   at call Flush assert [whole-source-through-pipeline] copied[compressor] == signer || copied[compressor] == f
 //@   property C04
